@@ -901,6 +901,7 @@ func checkC04(c *Ctx) string {
 			c.RequireBefore(r5+" (metadata before the record that points to it)", res, "writeState", 1, "Meta.Write")
 		}
 	}
+	checkRenameCoversNameFields(c, "C04.6 K18 a column rename rewrites every persisted column-name field of every index")
 	return "Static shape of clean shutdown and reopen: Database.close stops the checker (or has none) before it writes the shutdown marker — tailSize bytes from Stor.Alloc, only when mode != Read and not corrupted — and closes the store after both; " +
 		"the merger's last action before close(allDone) is the guarded final persist, CheckCo.Stop sends the stop message and then waits on the same channel, the checker closes the merge channel on the stop message; " +
 		"OpenDbStor reaches ReadState only on the readTail()==shutdown edge with offset Size()-tailSize-stateLen and returns (nil, err) elsewhere; " +
